@@ -3,6 +3,7 @@ SPECIFICATION Spec
 CONSTANTS
   EPs = {"responder"}
   Strength = 2
+  Thin = FALSE
   MissingGuards = {"dns.ptr_limit"}
 INVARIANTS TypeOK NeverHangs NeverCrash NoFourthValue
 CHECK_DEADLOCK FALSE
